@@ -75,12 +75,19 @@ pub fn main(rest: &[String]) -> i32 {
             "kn" | "kg" | "pw" => {
                 n_leap += 1;
                 let want = bb(&r["a"]);
-                let got = match t {
-                    "kn" => tables::knight_attacks(sq),
-                    "kg" => tables::king_attacks(sq),
-                    _ => tables::pawn_attacks(sq, if r["c"].as_u64().unwrap() == 0 { Player::White } else { Player::Black }),
-                }
-                .as_u64();
+                let white = r["c"].as_u64().unwrap_or(0) == 0;
+                let got = std::panic::catch_unwind(|| {
+                    match t {
+                        "kn" => tables::knight_attacks(sq),
+                        "kg" => tables::king_attacks(sq),
+                        _ => tables::pawn_attacks(sq, if white { Player::White } else { Player::Black }),
+                    }
+                    .as_u64()
+                });
+                let Ok(got) = got else {
+                    mism.push(json!({"t": t, "s": s, "c": r["c"], "what": "panic"}));
+                    continue;
+                };
                 if got != want {
                     mism.push(json!({"t": t, "s": s, "c": r["c"], "got": format!("{:#x}", got), "want": format!("{:#x}", want)}));
                 }
@@ -89,7 +96,10 @@ pub fn main(rest: &[String]) -> i32 {
                 n_bt += 1;
                 let want = bb(&r["a"]);
                 let b = Square::from_index(r["b"].as_u64().unwrap() as u8);
-                let got = tables::between(sq, b).as_u64();
+                let Ok(got) = std::panic::catch_unwind(|| tables::between(sq, b).as_u64()) else {
+                    mism.push(json!({"t": "bt", "s": s, "b": r["b"], "what": "panic"}));
+                    continue;
+                };
                 if got != want {
                     mism.push(json!({"t": "bt", "s": s, "b": r["b"], "got": format!("{:#x}", got), "want": format!("{:#x}", want)}));
                 }
